@@ -31,8 +31,11 @@ REGISTRY = {
     'C05': dict(level='proof', bounded='checks.bounded.C05', extra_proved=['checks.static_proved.c05'],
                 trusted=['engine/pyframe/effects.py (syntactic effect obligations E1-E4)', 'numpy/scipy routines called by bct do not draw random numbers themselves',
                          'get_rng behaves as documented (decided by the bounded tier: None/np.random -> global, RandomState passed through, otherwise fresh RandomState(seed))'],
-                technique='static effect obligations (no global-random use, all draws through get_rng(seed)\'s generator, nested calls receive the generator, no other nondeterminism source) over every seed-accepting function; dynamic cross-check (bounded)'),
+                technique='static effect obligations (no global-random use, all draws through get_rng(seed)\'s generator, nested calls receive the generator, no other nondeterminism source) over every seed-accepting function; dynamic cross-check (bounded)'),    'C15': dict(level='proof', bounded='checks.bounded.C15', pyvc=[('contracts.core_c15', k, None, None) for k in ['kcore_bu', 'kcore_bd', 'score_wu']],
+                trusted=PYVC_TRUSTED + ['counting lemmas lemma_masked_degree / lemma_degree_monotone (code-independent; engine/lean)', 'callee contracts of degrees_und / degrees_dir / strengths_und (column/row counts and sums)'],
+                assumptions=['peel=True outputs and kcoreness_centrality_bu/_bd are covered by the bounded stand-in only'],
+                technique='deductive (pyvc+z3): ghost alive-set invariant, maximality against an arbitrary (Skolem) node set meeting the bound; bounded subset-enumeration oracle for coreness and peel outputs'),
 }
-for _pid in ['C02', 'C03', 'C04', 'C07', 'C08', 'C09', 'C10', 'C12', 'C14', 'C15', 'C16', 'C18', 'C19', 'C20']:
+for _pid in ['C02', 'C03', 'C04', 'C07', 'C08', 'C09', 'C10', 'C12', 'C14', 'C16', 'C18', 'C19', 'C20']:
     REGISTRY.setdefault(_pid, dict(level='exploration', bounded='checks.bounded.%s' % _pid, trusted=['oracles of checks/bounded/%s.py' % _pid],
                                    technique='bounded stand-in: the property\'s contract executed on the real functions over exhaustive small scopes'))
